@@ -241,3 +241,82 @@ HARNESSES['c15_dynamic'] = dict(
     bounds='dynamic registration against the fixture package: 3 statements from 8 kinds (importable and not yet '
            'registered function / class / reference, missing attribute, name not imported, reference to a missing '
            'attribute, a binding / reference through an alias that only an earlier parse imported) x 4 forms of skip_unknown x registry pre-populated by an earlier parse or not')
+
+
+# ---- a name that becomes known half-way through one parse (its import comes after its first mention) ----
+def _forget_late():
+  import sys
+  for sel in list(gc._REGISTRY._selector_map):
+    if sel.startswith('vwlate.'):
+      obj = gc._REGISTRY[sel].wrapped
+      gc._REGISTRY.pop(sel)
+      gc._INVERSE_REGISTRY.pop(obj, None)
+  sys.modules.pop('vfx.late', None)
+
+
+LATE_SKIPS = [False, True, ['vwlate.late_fn'], ('vwlate.late_fn',), {'vwlate.late_fn'}, ['other']]
+
+
+def c15_late(skip: int, before: int, after: int, dyn: bool, v0: int) -> bool:
+  """
+  pre: 0 <= skip < 6 and 0 <= before < 3 and 0 <= after < 3
+  """
+  world.fresh()
+  skip = rt.pick(skip, 6)
+  before = rt.pick(before, 3)     # mention before the import: none / binding / reference
+  after = rt.pick(after, 3)       # mention after the import: none / binding / reference
+  dyn = rt.flag(dyn)
+  if dyn:
+    rt.discard()                  # (the dynamic variant is c15_dynamic's business)
+  sk = LATE_SKIPS[skip]
+  rt.sig(('late', skip, before, after), nontrivial=before != 0 and after != 0)
+  gin.constant('vwc.V0', v0)
+  with rt.native():
+    _forget_late()
+    try:
+      lines = []
+      if before == 1:
+        lines.append('vwlate.late_fn.x = 1')
+      elif before == 2:
+        lines.append('vw.cons.p = @vwlate.late_fn()')
+      lines.append('import vfx.late')
+      if after == 1:
+        lines.append('vwlate.late_fn.x = %vwc.V0')
+      elif after == 2:
+        lines.append('vw.cons.q = @vwlate.late_fn()')
+      exc = None
+      try:
+        gin.parse_config('\n'.join(lines) + '\n', skip_unknown=sk)
+      except Exception as e:
+        exc = e
+      cov = covered('vwlate.late_fn', sk)
+      if before and not cov:
+        # the first mention is an uncovered unknown: error, nothing after it applied
+        if not isinstance(exc, ValueError):
+          return rt.no('uncovered unknown before its import must raise, got %r' % (exc,))
+        return not gc._CONFIG or rt.no('statements after the error were applied')
+      if exc is not None:
+        return rt.no('unexpected %r' % (exc,))
+      got = {key: {p: canon(v) for p, v in d.items()} for key, d in gc._CONFIG.items()}
+      want = {}
+      if before == 2:
+        want.setdefault(('', 'vw.cons'), {})['p'] = U('vwlate.late_fn', True)
+      if after == 1:
+        want[('', 'vwlate.late_fn')] = {'x': ('REF', 'vwc.V0/gin.constant', True)}
+      elif after == 2:
+        want.setdefault(('', 'vw.cons'), {})['q'] = ('REF', 'vwlate.late_fn', True)
+      if got != want:
+        return rt.no('bindings %r, expected %r (skip_unknown=%r)' % (got, want, sk))
+      return True
+    finally:
+      _forget_late()
+
+
+HARNESSES['c15_late'] = dict(
+    fn='c15_late',
+    anchors=['gin.config:_should_skip', 'gin.config:process_import'],
+    smoke=[dict(skip=1, before=1, after=1, dyn=False, v0=4), dict(skip=2, before=2, after=2, dyn=False, v0=4)],
+    tiers={'quick': dict(split=dict(skip=list(range(6))), fixed=dict(dyn=False), budget_s=60),
+           'thorough': dict(split=dict(skip=list(range(6)), before=[0, 1, 2]), fixed=dict(dyn=False), budget_s=60)},
+    bounds='one parse in which a configurable is mentioned (binding / reference) BEFORE the import statement that '
+           'registers it and again after it, x 6 forms of skip_unknown')
